@@ -58,6 +58,22 @@ def d_uses_global():
     plain module-x module-x
     """
 
+def d_echo_loop():
+    """
+    Values echoed from inside a compound statement (the interactive interpreter remembers the last one as `_`)
+
+    >>> for i in range(2):
+    ...     i + 40
+    40
+    41
+    """
+
+def d_read_underscore():
+    """
+    >>> print('last value:', _)
+    last value: 41
+    """
+
 def d_lazy_skip():
     """
     A directive the parser leaves to the part itself (blanks between the prompt and the comment): the part finds it
@@ -174,7 +190,7 @@ def d_requires_toplevel_present():
 
 # verdicts known by construction (whatever ran before, whatever the default options): the first observation in the
 # process is not trusted for these, it may itself be polluted by process-wide state
-EXPECT_VERDICT = {'d_lazy_skip': 'skipped', 'd_lazy_requires': 'passed', 'd_requires_dotted_missing': 'skipped', 'd_requires_dotted_present': 'passed', 'd_requires_toplevel_present': 'passed',
+EXPECT_VERDICT = {'d_echo_loop': 'passed', 'd_read_underscore': 'failed', 'd_lazy_skip': 'skipped', 'd_lazy_requires': 'passed', 'd_requires_dotted_missing': 'skipped', 'd_requires_dotted_present': 'passed', 'd_requires_toplevel_present': 'passed',
                   'd_requires_two': 'skipped', 'd_define': 'passed', 'd_uses_global': 'passed', 'd_read': 'failed', 'd_read_leftover': 'failed'}
 
 
